@@ -72,6 +72,9 @@ def cases(tier, seed):
                         if cap and (n < 4 or prec != 1e-8 or dt != 10):
                             continue
                         yield {"reg": name, "drive": list(drive), "dt": dt, "precision": prec, "cap": cap, "perm": None}
+        # the solver named by the documented string instead of the enum member
+        for drive in (("const", 0), ("sweep", 0)):
+            yield {"reg": name, "drive": list(drive), "dt": 10, "precision": 1e-8, "cap": None, "perm": None, "solver": "dmrg"}
         if n <= 4:
             for drive in (("const", 0), ("const", 2), ("sweep", 0), ("phasejump", 0)):
                 for p in itertools.permutations(range(n)):
@@ -106,7 +109,7 @@ def run_case(case):
     if case["cap"]:
         kw["max_bond_dim"] = case["cap"]
     try:
-        cfg = m.MPSConfig(dt=case["dt"], precision=case["precision"], observables=obs, solver=m.Solver.DMRG, log_level=logging.CRITICAL, num_gpus_to_use=0, optimize_qubit_ordering=case["perm"] is not None, **kw)
+        cfg = m.MPSConfig(dt=case["dt"], precision=case["precision"], observables=obs, solver=case.get("solver") or m.Solver.DMRG, log_level=logging.CRITICAL, num_gpus_to_use=0, optimize_qubit_ordering=case["perm"] is not None, **kw)
         with contextlib.redirect_stdout(io.StringIO()):
             if case["perm"] is not None:
                 with seams.optimiser_answer(case["perm"]):
